@@ -302,7 +302,18 @@ def r04_4(ctx, prog, crate):
                   "FineDuration::MAX is %s" % sorted(z.label() for z in srcs), mx.where(0))
 
 
+def r04_5(ctx, prog, crate):
+    """The bounds the loop enforces are the ones given at run time: --max-time / --min-time / --skip-ext-time (and their
+    DIVAN_* variables) are stored into the runner's options from the option of the same name, whenever it is present and
+    whatever its value (an explicit `false` must override an attribute's `skip_ext_time`) - the three rows of R15.3 that
+    this property depends on, reported here under R04.5."""
+    from .C15 import r15_3
+    from .common import ExpansionView
+    r15_3(ExpansionView(ctx, "R04.5", {"max_time", "min_time", "skip_ext_time", "DIVAN_MAX_TIME", "DIVAN_MIN_TIME", "DIVAN_SKIP_EXT_TIME"}), prog, crate)
+
+
 def run(ctx, prog, crate):
+    r04_5(ctx, prog, crate)
     S = Sampling(prog, crate)
     if not ctx.anchor("R04.1", "sampling loop (loop around ThreadPool::par_extend)", 1 if S.body is not None and S.loop is not None and S.cond_switch is not None else 0, 1):
         return
